@@ -52,27 +52,54 @@ static Result judge_guard(uint64_t a, uint64_t b) {
   va::g.log_sizes = false;
   return r;
 }
+// The narrowed build is only a generator of candidate witnesses: a legitimate source may not be narrowable at all
+// (preprocessor tests on SIZE_MAX, constants of the real width).  A discrepancy found at width w is scaled up to 64-bit
+// operands (a << s1, b << s2 with s1 + s2 = 64 - w, so the exact result still does not fit) and only reported if the
+// real 64-bit function misbehaves on one of them, judged by 128-bit arithmetic.
+static bool confirm64(int what, uint64_t a, uint64_t b, unsigned w, std::string& msg) {
+  for (unsigned s1 = 0; s1 <= 64 - w; s1++) {
+    unsigned s2 = 64 - w - s1;
+    uint64_t A, B;
+    if (what == 1 || what == 2) { if (s1) break; A = a << (64 - w); B = b << (64 - w); }   // sums scale by one common factor
+    else { A = a << s1; B = b << s2; }
+    u128 prod = (u128)A * B, sum = (u128)A + B;
+    switch (what) {
+      case 0: if (_cbor_safe_to_multiply(A, B) && prod > SZMAX) { msg = "_cbor_safe_to_multiply(" + u64s(A) + ", " + u64s(B) + ") answered true although the product does not fit in size_t"; return true; } break;
+      case 1: if (_cbor_safe_to_add(A, B) && sum > SZMAX) { msg = "_cbor_safe_to_add(" + u64s(A) + ", " + u64s(B) + ") answered true although the sum does not fit in size_t"; return true; } break;
+      case 2: { size_t r = _cbor_safe_signaling_add(A, B); if (r != 0 && (u128)r != sum) { msg = "_cbor_safe_signaling_add(" + u64s(A) + ", " + u64s(B) + ") returned " + u64s(r) + ", neither 0 nor the exact sum"; return true; } break; }
+      default: {
+        rec_reset();
+        void* p = what == 3 ? _cbor_alloc_multiple(A, B) : _cbor_realloc_multiple(nullptr, A, B);
+        bool bad = !va::g.size_log.empty() && (u128)va::g.size_log[0] < prod;
+        if (p) va::vfree(p);
+        va::g.log_sizes = false;
+        if (bad) { msg = std::string(what == 3 ? "_cbor_alloc_multiple(" : "_cbor_realloc_multiple(") + u64s(A) + ", " + u64s(B) + ") asked the allocator for fewer bytes than item_size*item_count"; return true; }
+      }
+    }
+  }
+  return false;
+}
 static Result judge_narrow(unsigned width, uint64_t a) {
   Result r; r.klass = width == 8 ? "NARROW8" : "NARROW16"; r.nontrivial = true;
   static NarrowLog log; static NarrowFns f8 = n8_fns(&log); static NarrowFns f16;
   static bool init16 = false; if (!init16) { f16 = n16_fns(&log); init16 = true; }
-  // n8_fns and n16_fns share nothing but the log pointer type; each TU has its own g_log
   const NarrowFns& f = width == 8 ? f8 : f16;
   uint64_t maxv = (1ull << width) - 1;
   if (a > maxv) { r.skipped = true; return r; }
   for (uint64_t b = 0; b <= maxv; b++) {
     uint64_t prod = a * b, sum = a + b;
-    auto fail = [&](const std::string& m) { r.ok = false; r.msg = "memory_utils.c compiled with a " + std::to_string(width) + "-bit size_t: " + m + " for a=" + std::to_string(a) + " b=" + std::to_string(b); return r; };
-    if (f.safe_mul(a, b) && prod > maxv) return fail("_cbor_safe_to_multiply true although a*b does not fit");
-    if (f.safe_add(a, b) && sum > maxv) return fail("_cbor_safe_to_add true although a+b does not fit");
-    uint64_t s = f.sig_add(a, b);
-    if (s != 0 && s != sum) return fail("_cbor_safe_signaling_add returned " + std::to_string(s) + ", neither 0 nor the exact sum");
-    log.called = false; bool got = f.alloc_mul(a, b);
-    if (log.called && log.size < prod) return fail("_cbor_alloc_multiple requested " + std::to_string(log.size) + " bytes, fewer than the product");
-    if (got && !log.called) return fail("pointer without a request");
-    log.called = false; got = f.realloc_mul(a, b);
-    if (log.called && log.size < prod) return fail("_cbor_realloc_multiple requested " + std::to_string(log.size) + " bytes, fewer than the product");
+    int what = -1;
+    if (f.safe_mul(a, b) && prod > maxv) what = 0;
+    else if (f.safe_add(a, b) && sum > maxv) what = 1;
+    else { uint64_t s = f.sig_add(a, b); if (s != 0 && s != sum) what = 2; }
+    if (what < 0) { log.called = false; bool got = f.alloc_mul(a, b); if ((log.called && log.size < prod) || (got && !log.called)) what = 3; }
+    if (what < 0) { log.called = false; f.realloc_mul(a, b); if (log.called && log.size < prod) what = 4; }
     vh::counters["narrow_pairs"]++;
+    if (what >= 0) {
+      std::string msg;
+      if (confirm64(what, a, b, width, msg)) { r.ok = false; r.msg = msg + " (witness scaled up from the " + std::to_string(width) + "-bit build of the same source, a=" + std::to_string(a) + " b=" + std::to_string(b) + ")"; return r; }
+      vh::counters["narrow_only_discrepancies"]++;   // the source is not faithfully narrowable here; nothing is claimed
+    }
   }
   return r;
 }
